@@ -204,11 +204,18 @@ package rtree
 //@   ensures [levels_kept] forall m *node :: m != nil && !fresh(m) ==> m.level == old(m.level) && m.leaf == old(m.leaf)
 //@   ensures [assigned_to_exactly_one_group] len(left.entries) + len(right.entries) == old(len(left.entries) + len(right.entries)) + 1
 
+// pickSeeds: verified (was trusted): on a node with at least two boxed entries the two seeds are
+// two different valid entry indices, in order; nothing is written.
 //@ func (n *node) pickSeeds
 //@   prop C11
-//@   trusted quadratic seed selection; only its result indices are used (nosafety in split)
-//@   opt writes=alloc
+//@   mode real
+//@   requires [node] n != nil && len(n.entries) >= 2 && boxesOK(n)
+//@   ensures [two_distinct_entries] 0 <= result0 && result0 < result1 && result1 < len(n.entries)
 //@   modifies nothing
+//@   loop 1 `for i, e1 := range n.entries`
+//@     invariant [seeds] 0 <= #1 && #1 <= len(n.entries) && 0 <= left && left < right && right < len(n.entries)
+//@   loop 2 `for j, e2 := range n.entries[i+1:]`
+//@     invariant [seeds] 0 <= #2 && #2 <= len(n.entries) - #1 - 1 && #1 < len(n.entries) && 0 <= left && left < right && right < len(n.entries) && e1.bb != nil
 
 //@ func (n *node) split
 //@   prop C11
